@@ -38,7 +38,7 @@ theorem parse_path_independent (bytes : Bytes) (proto : Nat) (l2 : Bool)
 is linear and in whether `bpf_skb_pull_data` succeeded get the same verdict, the same skb effects
 and leave the same world behind, on every hook, for every rule program and world. -/
 theorem verdict_parse_path_independent (rt : RouteIn → Int) (w : World) (h : Hook) (l2 : Bool)
-    (bytes : Bytes) (proto iif ifx mark cookie : Nat) (sk : Option (Nat × Nat))
+    (bytes : Bytes) (proto iif ifx mark cookie : Nat) (sk : Option SockEntry)
     (lin₁ lin₂ : Nat) (pull₁ pull₂ : Bool) (h₁ : lin₁ ≤ bytes.length) (h₂ : lin₂ ≤ bytes.length) :
     step rt w h ⟨⟨bytes, lin₁, pull₁, proto⟩, iif, ifx, mark, cookie, sk⟩ l2 =
     step rt w h ⟨⟨bytes, lin₂, pull₂, proto⟩, iif, ifx, mark, cookie, sk⟩ l2 := by
@@ -572,5 +572,115 @@ theorem dae_tcp_syn_passes_and_clears (rt : RouteIn → Int) (w : World) (s : Sk
   rw [wanEgress_tcp rt w s l2 p hi hp ht]
   unfold wanEgressTcp wanTcpSyn
   simp only [hs, ha, Bool.not_false, Bool.and_self, if_true, hcp, alookup_aerase_self, and_self]
+
+/-! ## Routing errors fail closed -/
+
+/-- the LAN hook consults the rule program for this packet: a new TCP connection, or a UDP datagram
+that is stateless (port 53) or whose flow holds no decision yet — and no local socket owns the tuple -/
+def LanConsultsRoute (w : World) (s : Skb) (p : Pkt) : Prop :=
+  (p.l4proto = IPPROTO_TCP ∧ p.syn = true ∧ p.ack = false) ∨
+  (p.l4proto = IPPROTO_UDP ∧ lanLocalSocket w s p = false ∧
+    (shortLivedUdp p.tuples.five = true ∨
+      ∀ cs, udpLive w p.tuples.five = some cs → cs.hasRouting = 0 ∧ cs.wanDir = false))
+
+/-- **A routing error fails closed (LAN).**  When `route()` returns a negative value (no match set
+hit: a program without fallback, an active length shorter than the program, a missing LPM slot, an
+unknown match type) for a packet the LAN hook routes, the frame is DROPPED: never passed, never
+handed over, no hand-off record and no redirect entry written. -/
+theorem lan_routing_error_fails_closed (rt : RouteIn → Int) (w : World) (s : Skb) (l2 : Bool) (p : Pkt)
+    (hp : parsePacket s.raw l2 = .pkt p) (hc : LanConsultsRoute w s p) (hr : rt (lanRouteIn s p) < 0) :
+    (lanIngress rt w s l2).2 = outShot s ∧ (lanIngress rt w s l2).1.handoff = w.handoff ∧
+    (lanIngress rt w s l2).1.rtrack = w.rtrack := by
+  have key : ∀ w1 st, w1.rest = w.rest → lanLocalSocket w s p = false →
+      (lanRouteNew rt w1 s l2 p st).2 = outShot s ∧ (lanRouteNew rt w1 s l2 p st).1.handoff = w.handoff ∧
+      (lanRouteNew rt w1 s l2 p st).1.rtrack = w.rtrack := by
+    intro w1 st hrest hls
+    unfold lanRouteNew
+    rw [lanLocalSocket_congr hrest, hls]
+    simp only [Bool.false_eq_true, if_false, hr, if_true]
+    exact ⟨by first | rfl | trivial, (rest_handoff hrest).1, (rest_rtrack hrest).1⟩
+  rw [lanIngress_pkt rt w s l2 p hp]
+  rcases hc with ⟨ht, hs, ha⟩ | ⟨ht, hls, hsl | hnew⟩
+  · rw [lanIngressPkt_tcp_syn rt w s l2 p ht hs ha]
+    exact key _ _ (markTcpSeen_rest _ _ _ _ _ _) (lanLocalSocket_tcp_syn w s p ht hs ha)
+  · have hnt : p.l4proto ≠ IPPROTO_TCP := by rw [ht]; decide
+    rw [lanIngressPkt_dns rt w s l2 p hnt hsl]
+    exact key w none rfl hls
+  · have hnt : p.l4proto ≠ IPPROTO_TCP := by rw [ht]; decide
+    by_cases hsl : shortLivedUdp p.tuples.five = true
+    · rw [lanIngressPkt_dns rt w s l2 p hnt hsl]
+      exact key w none rfl hls
+    · have hsl' : shortLivedUdp p.tuples.five = false := by
+        cases hx : shortLivedUdp p.tuples.five <;> simp_all
+      rw [lanIngressPkt_udp rt w s l2 p hnt hsl']
+      have hrest := markUdpSeen_rest w p.tuples.five false { dscp := p.tuples.dscp }
+      cases hm : (markUdpSeen w p.tuples.five false { dscp := p.tuples.dscp }).2 with
+      | none =>
+        have : lanUdp rt w s l2 p =
+            lanRouteNew rt (markUdpSeen w p.tuples.five false { dscp := p.tuples.dscp }).1 s l2 p none := by
+          unfold lanUdp; simp only [hm]
+        rw [this]; exact key _ _ hrest hls
+      | some cs =>
+        have hcs := markUdpSeen_result_untracked w p.tuples.five { dscp := p.tuples.dscp } rfl hnew cs hm
+        rw [lanUdp_untracked rt w s l2 p cs hm hcs.1 hcs.2]
+        exact key _ _ hrest hls
+
+/-- **A routing error fails closed (WAN, new TCP connection of a local process).** -/
+theorem wan_tcp_routing_error_fails_closed (rt : RouteIn → Int) (w : World) (s : Skb) (l2 : Bool) (p : Pkt)
+    (hi : s.ingressIf = 0) (hp : parsePacket s.raw l2 = .pkt p) (ht : p.l4proto = IPPROTO_TCP)
+    (hs : p.syn = true) (ha : p.ack = false) (hcp : (pidIsControlPlane w s).isCp = false)
+    (hr : rt (wanRouteIn s p true (ppName (pidIsControlPlane w s).pp) (if l2 then p.ethSrc else zeros 6)) < 0) :
+    (wanEgress rt w s l2).2 = outShot s ∧ (wanEgress rt w s l2).1.handoff = w.handoff ∧
+    (wanEgress rt w s l2).1.rtrack = w.rtrack ∧ (wanEgress rt w s l2).1.conn = w.conn := by
+  rw [wanEgress_tcp rt w s l2 p hi hp ht]
+  unfold wanEgressTcp
+  simp only [hs, ha, Bool.not_false, Bool.and_self, if_true]
+  unfold wanTcpSyn
+  simp only [hcp, Bool.false_eq_true, if_false, hr, if_true, pidIsControlPlane_conn]
+  have hrest := pidIsControlPlane_rest w s
+  exact ⟨by first | rfl | trivial, (rest_handoff hrest).1, (rest_rtrack hrest).1, by first | rfl | trivial⟩
+
+/-- **A routing error fails closed (WAN, UDP of a local process)**: stateless port-53 datagrams and
+datagrams of flows that hold no decision yet. -/
+theorem wan_udp_routing_error_fails_closed (rt : RouteIn → Int) (w : World) (s : Skb) (l2 : Bool) (p : Pkt)
+    (hi : s.ingressIf = 0) (hp : parsePacket s.raw l2 = .pkt p) (ht : p.l4proto = IPPROTO_UDP)
+    (hcp : (pidIsControlPlane w s).isCp = false)
+    (hnew : shortLivedUdp p.tuples.five = true ∨
+      ∀ cs, udpLive w p.tuples.five = some cs → cs.hasRouting = 0 ∧ cs.wanDir = false)
+    (hr : rt (wanRouteIn s p false (ppName (pidIsControlPlane w s).pp) p.ethSrc) < 0) :
+    (wanEgress rt w s l2).2 = outShot s ∧ (wanEgress rt w s l2).1.handoff = w.handoff ∧
+    (wanEgress rt w s l2).1.rtrack = w.rtrack := by
+  rw [wanEgress_udp rt w s l2 p hi hp ht]
+  unfold wanEgressUdp
+  have hrest0 := pidIsControlPlane_rest w s
+  have hconn0 := pidIsControlPlane_conn w s
+  simp only [hcp, Bool.false_eq_true, if_false]
+  have key : ∀ w1 st, w1.rest = w.rest → (∀ cs, st = some cs → cs.wanDir = false ∧ cs.hasRouting = 0) →
+      (wanUdpRouted rt w1 s l2 p (pidIsControlPlane w s).pp st).2 = outShot s ∧
+      (wanUdpRouted rt w1 s l2 p (pidIsControlPlane w s).pp st).1.handoff = w.handoff ∧
+      (wanUdpRouted rt w1 s l2 p (pidIsControlPlane w s).pp st).1.rtrack = w.rtrack := by
+    intro w1 st hrest hst
+    unfold wanUdpRouted
+    cases st with
+    | none => simp only [hr, if_true]; exact ⟨by first | rfl | trivial, (rest_handoff hrest).1, (rest_rtrack hrest).1⟩
+    | some cs =>
+      obtain ⟨h1, h2⟩ := hst cs rfl
+      simp only [h1, h2, Bool.false_eq_true, if_false, bne_self_eq_false, hr, if_true]
+      exact ⟨by first | rfl | trivial, (rest_handoff hrest).1, (rest_rtrack hrest).1⟩
+  by_cases hsl : shortLivedUdp p.tuples.five = true
+  · simp only [hsl, Bool.not_true, Bool.false_eq_true, if_false]
+    exact key _ none hrest0 (fun _ h => by cases h)
+  · have hsl' : shortLivedUdp p.tuples.five = false := by
+      cases hx : shortLivedUdp p.tuples.five <;> simp_all
+    have hnew' : ∀ cs, udpLive w p.tuples.five = some cs → cs.hasRouting = 0 ∧ cs.wanDir = false := by
+      rcases hnew with h | h
+      · exact absurd h hsl
+      · exact h
+    simp only [hsl', Bool.not_false, if_true]
+    have hrest1 := markUdpSeen_rest (pidIsControlPlane w s).w p.tuples.five false {}
+    refine key _ _ (hrest1.trans hrest0) ?_
+    intro cs hm
+    exact markUdpSeen_result_untracked _ p.tuples.five {} rfl
+      (fun cs0 hl => hnew' cs0 (by rw [← udpLive_congr hconn0 hrest0]; exact hl)) cs hm
 
 end DaeVerif.C03.Props
